@@ -23,6 +23,11 @@ def file_bytes(lab, path, size, v):
     return lab.gen("%s:%d:%d" % (path, size, v), size)
 
 
+def _isreg(lab, d, p):
+    fp = lab.p(d, p)
+    return os.path.isfile(fp) and not os.path.islink(fp)
+
+
 def apply_op(lab, op, **runkw):
     """apply one op; returns a lab.Result for commands, None for file operations"""
     k = op[0]
@@ -30,32 +35,36 @@ def apply_op(lab, op, **runkw):
         _, d, p, size, v = op[:5]
         nsec = op[5] if len(op) > 5 else 500
         lab.write(d, p, file_bytes(lab, p, size, v), file_mtime_ns(p, size, v, nsec))
+    elif k == "writeat":
+        _, d, p, size, v, mt = op
+        lab.write(d, p, file_bytes(lab, p, size, v), mt)
     elif k == "rm":
         lab.rm(op[1], op[2])
     elif k == "mv":
         if lab.exists(op[1], op[2]):
             lab.mv(op[1], op[2], op[3], op[4])
     elif k == "cp":
-        if lab.exists(op[1], op[2]):
+        if _isreg(lab, op[1], op[2]):
             lab.cp(op[1], op[2], op[3], op[4])
     elif k == "touch":
-        if lab.exists(op[1], op[2]):
+        if _isreg(lab, op[1], op[2]):
             st = os.lstat(lab.p(op[1], op[2]))
             lab.touch(op[1], op[2], file_mtime_ns(op[2], st.st_size, 100 + op[3]))
     elif k == "append":
-        if lab.exists(op[1], op[2]):
+        if _isreg(lab, op[1], op[2]):
             old = lab.read(op[1], op[2])
             data = old + lab.gen("%s:app:%d" % (op[2], len(old)), op[3])
             lab.write(op[1], op[2], data, file_mtime_ns(op[2], len(data), 50))
     elif k == "trunc":
-        if lab.exists(op[1], op[2]):
+        if _isreg(lab, op[1], op[2]):
             old = lab.read(op[1], op[2])
             data = old[:op[3]]
             lab.write(op[1], op[2], data, file_mtime_ns(op[2], len(data), 51))
     elif k == "symlink":
         lab.symlink(op[1], op[2], op[3])
     elif k == "hardlink":
-        if lab.exists(op[1], op[3]):
+        tp = lab.p(op[1], op[3])
+        if os.path.isfile(tp) and not os.path.islink(tp):
             lab.hardlink(op[1], op[2], op[3])
     elif k == "mkdir":
         lab.mkdir(op[1], op[2])
